@@ -4,7 +4,7 @@
  *
  *  C20:  reg <path> <id> <fallback>   unreg <path>   ocall <path> <ids that handle, csv or ->   children <path>
  *  C17:  call <tag> <timeout_ms> <notify 0/1>   reply <tag> <ret|err|dup|bogus>   cancel <tag>   block <tag>
- *        pump <ms>   peerclose   poll <tag>   steal <tag>
+ *        pump <ms>   peerclose   poll <tag>   steal <tag>   fetch (read into the incoming queue, no dispatch)
  */
 #include <config.h>
 #include <dbus/dbus.h>
@@ -31,7 +31,17 @@ static long now_ms (void) { struct timespec t; clock_gettime (CLOCK_MONOTONIC, &
 static void pump (int ms)
 {
   long t0 = now_ms ();
-  do { test_main_context_iterate (ctx, FALSE); if (ms > 0) usleep (300); } while (now_ms () - t0 < ms);
+  do
+    {
+      test_main_context_iterate (ctx, FALSE);
+      /* what "fetch" read into the queue behind the main loop's back is dispatched here (an application that reads
+       * by hand dispatches by hand) */
+      while (under_test && dbus_connection_get_dispatch_status (under_test) == DBUS_DISPATCH_DATA_REMAINS
+             && dbus_connection_dispatch (under_test) == DBUS_DISPATCH_DATA_REMAINS)
+        ;
+      if (ms > 0) usleep (300);
+    }
+  while (now_ms () - t0 < ms);
 }
 
 /* ------------------------------------------------------------------ C20 */
@@ -200,6 +210,12 @@ int main (int argc, char **argv)
           printf ("{\"sent\":1}\n");
         }
       else if (!strcmp (cmd, "pump")) { pump (atoi (a1)); printf ("{\"pumped\":%d}\n", atoi (a1)); }
+      else if (!strcmp (cmd, "fetch"))
+        { /* read what is on the wire into the incoming queue WITHOUT dispatching it */
+          long t0 = now_ms ();
+          while (dbus_connection_get_dispatch_status (under_test) != DBUS_DISPATCH_DATA_REMAINS && now_ms () - t0 < 300)
+            dbus_connection_read_write (under_test, 10);
+          printf ("{\"queued\":%d}\n", dbus_connection_get_dispatch_status (under_test) == DBUS_DISPATCH_DATA_REMAINS); }
       else if (!strcmp (cmd, "cancel")) { int tag = atoi (a1); if (calls[tag].pc) dbus_pending_call_cancel (calls[tag].pc); describe (tag); printf ("}\n"); }
       else if (!strcmp (cmd, "block")) { int tag = atoi (a1); long t0 = now_ms (); if (calls[tag].pc) dbus_pending_call_block (calls[tag].pc); describe (tag); printf (",\"ms\":%ld}\n", now_ms () - t0); }
       else if (!strcmp (cmd, "poll")) { int tag = atoi (a1); describe (tag); printf ("}\n"); }
